@@ -191,9 +191,11 @@ func (c03) invalidate(r *core.Rand, v gen.VText) [][2]string {
 		{"epoch-oversized", r.Str("123456789", 1) + r.Str(gen.Digits, r.Range(20, 30)) + ":" + plain},
 		{"epoch-oversized", r.Str("23456789", 1) + r.Str(gen.Digits, 19) + ":" + plain},
 		{"epoch-oversized", r.Pick([]string{"18446744073709551616", "18446744073709551617", "018446744073709551616", "99999999999999999999", "36893488147419103232"}) + ":" + plain},
-		// 2^63 .. 2^64-1 still fits the unsigned Epoch field: refusing it (as the code at the pinned commit does) and
+		// 2^31 .. 2^64-1 still fits the unsigned Epoch field (dpkg itself stops at INT_MAX): refusing it (as the code at the pinned commit does) and
 		// accepting it faithfully are both in line with the statement; accepting it as some OTHER number is not
-		{"epoch-top-bit", r.Pick([]string{"9223372036854775808", "9223372036854775809", "18446744073709551615", "09223372036854775808", "1" + r.Str(gen.Digits, 19)}) + ":" + plain},
+		{"epoch-top-bit", r.Pick([]string{"9223372036854775808", "9223372036854775809", "18446744073709551615", "09223372036854775808", "1" + r.Str(gen.Digits, 19),
+			// ... and the same goes for what lies between dpkg's limit (INT_MAX) and 2^63: "oversized" to dpkg, representable here
+			"2147483648", "4294967301", "9223372036854775807", "99999999999"}) + ":" + plain},
 		{"nothing-after-colon", r.Str(gen.Digits, r.Range(1, 3)) + ":" + r.Pick([]string{"", " ", "\n"})},
 	}
 	if len(v.Text) >= 2 {
